@@ -414,10 +414,11 @@ Proof.
 Qed.
 
 (* ------------------------------------------------------------------------ *)
-(* stretch goal of the design, NOT proved: on loop-free graphs the edge-count
+(* former stretch goal of the design: on loop-free graphs the edge-count
    characterisation of trees used above coincides with "connected and every
-   induced edge is a bridge of the induced subgraph" (no cycle).  Kept visible
-   as a statement; nothing depends on it. *)
+   induced edge is a bridge of the induced subgraph" (no cycle).  The statement
+   is proved in AvcTreeExact.v (tree_iff_no_cycle), from the version for all
+   well-formed multigraphs in AvcTree.v (tree_iff_bridges). *)
 Definition tree_iff_no_cycle_statement : Prop :=
   forall g act, wf_graph g = true -> loop_free g = true ->
     (tree g act <->
